@@ -11,7 +11,7 @@
 static cholmod_sparse* flatten_ndarray_to_sparse(struct ndsparse *array,
     size_t nrow, size_t ncol, cholmod_common* c);
 cholmod_sparse* calc_penalty(uint64_t* nsplines, double *knots, uint32_t ndim, uint32_t i,
-    uint32_t order, uint32_t porder, int mono, cholmod_common* c);
+    uint32_t order, uint32_t porder, uint32_t monodim, cholmod_common* c);
 
 int
 glamfit_complex(const struct ndsparse* data, const double* weights, const double* const* coords,
@@ -303,7 +303,7 @@ glamfit_complex(const struct ndsparse* data, const double* weights, const double
 
 cholmod_sparse*
 add_penalty_term(uint64_t* nsplines, double* knots, uint32_t ndim, uint32_t dim, uint32_t order,
-   uint32_t porder, double scale, int mono, cholmod_sparse* penalty,
+   uint32_t porder, double scale, uint32_t monodim, cholmod_sparse* penalty,
    cholmod_common* c)
 {
 	cholmod_sparse* penalty_tmp, * penalty_chunk;
@@ -313,7 +313,7 @@ add_penalty_term(uint64_t* nsplines, double* knots, uint32_t ndim, uint32_t dim,
 		return (penalty);		
 
 	penalty_chunk = calc_penalty(nsplines, knots, ndim, dim, order,
-	    porder, mono, c);
+	    porder, monodim, c);
 	penalty_tmp = penalty;
 
 	/* Add each chunk to the big matrix, scaling by smooth */
@@ -410,8 +410,9 @@ divided_diffs(int order, int porder, int j, double* knots, double* out)
 
 cholmod_sparse*
 calc_penalty(uint64_t* nsplines, double* knots, uint32_t ndim, uint32_t dim, uint32_t order,
-    uint32_t porder, int mono, cholmod_common* c)
+    uint32_t porder, uint32_t monodim, cholmod_common* c)
 {
+	const int mono = (dim == monodim);
 	cholmod_sparse* finitediff, * fd_trans, * DtD, * result;
 	cholmod_sparse* tmp, * tmp2;
 	cholmod_triplet* trip;
@@ -467,15 +468,45 @@ calc_penalty(uint64_t* nsplines, double* knots, uint32_t ndim, uint32_t dim, uin
 	cholmod_l_free_sparse(&finitediff, c);
 	cholmod_l_free_sparse(&fd_trans, c);
 
+	/*
+	 * kronecker_product() multiplies the stored entries, which for
+	 * matrices stored as their upper triangles is only right while at
+	 * most one factor is not diagonal. With a monotonic dimension other
+	 * than this one there are two such factors: store them in full.
+	 */
+	if (!mono && monodim < ndim) {
+		cholmod_sparse *upper = DtD;
+		DtD = cholmod_l_copy(upper, 0, 1, c);
+		cholmod_l_free_sparse(&upper, c);
+	}
+
 	/* Next take kronecker products to form the full P */
 
 	tmp = NULL;
 	result = NULL;
 	for (i = 0; i < ndim; i++) {
-		tmp2 = (i == dim) ? DtD : cholmod_l_speye(
-		    nsplines[i], nsplines[i],
-		    CHOLMOD_REAL, c);
-		tmp2->stype = 1; /* The identity matrix is always symmetric. */
+		if (i == dim) {
+			tmp2 = DtD;
+		} else if (i == monodim) {
+			/*
+			 * The fit variables along the monotonic dimension
+			 * are T-spline coefficients t with c = L t, so a
+			 * penalty on the coefficients c along another
+			 * dimension carries L^T L here, not the identity.
+			 */
+			cholmod_sparse *tril, *tril_trans;
+
+			tril = cholmod_tril(nsplines[i], c);
+			tril_trans = cholmod_l_transpose(tril, 1, c);
+			tmp2 = cholmod_l_ssmult(tril_trans, tril,
+			    0 /* stored in full, see above */, 1, 0, c);
+			cholmod_l_free_sparse(&tril, c);
+			cholmod_l_free_sparse(&tril_trans, c);
+		} else {
+			tmp2 = cholmod_l_speye(nsplines[i], nsplines[i],
+			    CHOLMOD_REAL, c);
+			tmp2->stype = 1; /* The identity matrix is always symmetric. */
+		}
 
 		if (result == NULL) {
 			result = tmp2;
